@@ -15,12 +15,15 @@ import (
 type Expr interface{ exprNode() }
 
 type (
-	EIdent  struct{ Name string }
-	EInt    struct{ Val string }
-	EStr    struct{ Val string }
-	EBool   struct{ Val bool }
-	ENil    struct{}
-	EUnary  struct{ Op string; X Expr }
+	EIdent struct{ Name string }
+	EInt   struct{ Val string }
+	EStr   struct{ Val string }
+	EBool  struct{ Val bool }
+	ENil   struct{}
+	EUnary struct {
+		Op string
+		X  Expr
+	}
 	EBinary struct {
 		Op   string
 		X, Y Expr
